@@ -158,6 +158,7 @@ def run(ctx):
     acc, rej = vlib.validate_trace(ctx, "Reader_Trace", tp, timeout=1800, max_reject=6)
     ctx.sample({"reader_sequence": rcases[77]["calls"], "events": rseq_events(rrecs[rcases[77]["id"]], total)})
     reset_is_new(ctx, b, d, rcases, rrecs)
+    reuse_across_frames(ctx, b, d)
     for rj in rej:
         rec = json.loads(rj["line"])
         c = by_r[rec["case"]]
@@ -245,6 +246,74 @@ def reset_is_new(ctx, b, d, rcases, rrecs):
     ctx.extra["reset_is_new_comparisons"] = compared
 
 
+RESULT_KEYS = ("outcome", "err", "deliveredLen", "deliveredSha", "size", "consumed")
+
+
+def reuse_across_frames(ctx, b, d):
+    """"Reset makes the object indistinguishable from a new one", across frames of different kinds: a Reader that has read
+    frame F to its end and is Reset onto frame G reads G exactly as a new Reader does (result, bytes, Size, source bytes)."""
+    q = ctx.tier == "quick"
+    B = 65536
+    kinds = [("bcs+ccs", {"code": 4, "bcs": True, "ccs": True, "legacy": False}), ("plain", {"code": 4, "bcs": False, "ccs": False, "legacy": False}),
+             ("legacy", {"code": 7, "bcs": False, "ccs": False, "legacy": True}), ("sized-256K", {"code": 5, "bcs": False, "ccs": True, "legacy": False, "size": 3 * B + 5}),
+             ("bcs-1M", {"code": 6, "bcs": True, "ccs": False, "legacy": False})]
+    frames = []
+    for i, (name, o) in enumerate(kinds):
+        n = 3 * B + 5
+        frames.append({"id": i + 1, "name": name, "input": {"family": ["text", "blockmix"][i % 2], "len": n, "seed": 300 + i, "p1": B},
+                       "opts": dict(o, level=0, conc=1, handler=False), "calls": [{"op": "write", "n": n}, {"op": "close"}],
+                       "save": os.path.join(d, "reuse-%d.lz4" % (i + 1))})
+    fl.shard_run(b, "frame-write", frames, d, "reusew")
+    cases = []
+    for g in frames:
+        for conc in (1, 4):
+            for mode in ("read", "writeto"):
+                cfg = {"conc": conc, "mode": mode, "bufs": [4096 if conc == 1 else 3 * B], "extra": 1}
+                ref = {"id": len(cases) + 1, "chunks": [{"file": g["save"]}], "cfg": cfg, "g": g["name"], "f": None}
+                cases.append(ref)
+                for f in frames:
+                    if f is not g:
+                        cases.append({"id": len(cases) + 1, "chunks": [{"file": g["save"]}], "cfg": dict(cfg, preFile=f["save"]), "g": g["name"], "f": f["name"],
+                                      "ref": ref["id"]})
+    recs, faults = fl.shard_run(b, "frame-read", cases, d, "reuser", extra=("--watchdog", "60s"))
+    if faults:
+        raise vlib.MachineryFault("frame-read failed: %s" % faults[0]["stderr"][-600:])
+    ctx.evaluations += len(cases)
+    ctx.distinct += len(cases)
+    by_id = {c["id"]: c for c in cases}
+
+    def res(r, conc):
+        return {k: r.get(k) for k in RESULT_KEYS if not (k == "consumed" and conc != 1)}
+    for c in cases:
+        if c["f"] is None:
+            continue
+        ref = by_id[c["ref"]]
+        if c["id"] not in recs or ref["id"] not in recs:
+            continue
+        conc = c["cfg"]["conc"]
+        if recs[ref["id"]]["outcome"] != "clean":
+            raise vlib.MachineryFault("a new Reader does not read the valid frame %s" % c["g"])
+        if res(recs[c["id"]], conc) == res(recs[ref["id"]], conc):
+            continue
+        key = "C17:reader:reset-is-not-new:after=%s:frame=%s:%s:conc=%s:outcome=%s/%s" % (c["f"], c["g"], c["cfg"]["mode"], "1" if conc == 1 else ">1",
+                                                                                      recs[c["id"]]["outcome"], recs[c["id"]]["err"])
+        if any(v[0] == key for v in ctx.violations):
+            continue
+        again = None
+        for attempt in range(10 if conc != 1 else 2):
+            r2, _ = fl.shard_run(b, "frame-read", [c, ref], d, "reuseagain", nshards=1, extra=("--watchdog", "60s"))
+            if c["id"] in r2 and ref["id"] in r2 and res(r2[c["id"]], conc) != res(r2[ref["id"]], conc):
+                again = (res(r2[c["id"]], conc), res(r2[ref["id"]], conc))
+                break
+        if again is None:
+            ctx.unreproducible(key)
+            continue
+        ctx.violation(key, "a Reader Reset onto another frame does not read it as a new Reader does: %s" % key,
+                      {"kind": "c17-reuse-frames", "case": c, "fresh": ref, "after_reset": again[0], "new_object": again[1],
+                       "frames": [{k: v for k, v in f.items()} for f in frames]})
+    ctx.extra["reuse_across_frames"] = len(cases)
+
+
 def rseq_events(r, total):
     ev = [{"ev": "rnew", "case": r["case"], "total": total, "conc": r["conc"], "linked": False, "declared": [total % 65536, total // 65536, 0, 0]}]
     for c in r["calls"]:
@@ -278,6 +347,19 @@ def replay(ctx, path):
     rp = json.load(open(path))
     b = vlib.build_harness()
     d = vlib.scratch("c17r")
+    if rp["kind"] == "c17-reuse-frames":
+        fl.shard_run(b, "frame-write", [dict(f, save=os.path.join(d, os.path.basename(f["save"]))) for f in rp["frames"]], d, "reusew")
+        fix = lambda c: json.loads(json.dumps(c).replace(os.path.dirname(rp["frames"][0]["save"]), d))
+        c, ref = fix(rp["case"]), fix(rp["fresh"])
+        conc = c["cfg"]["conc"]
+        for attempt in range(10):
+            r2, _ = fl.shard_run(b, "frame-read", [c, ref], d, "reuseagain", nshards=1, extra=("--watchdog", "60s"))
+            a, z = [{k: r2[x["id"]].get(k) for k in RESULT_KEYS if not (k == "consumed" and conc != 1)} for x in (c, ref)]
+            if a != z:
+                print("VIOLATION property=%s replay=%s" % (ctx.prop, path))
+                return 1
+        print("replay: deviation not observed")
+        return 0
     if rp["kind"] == "c17-reset-new":
         c, ref = rp["case"], rp["fresh"]
         ops = [x["op"] for x in c["calls"]]
